@@ -128,7 +128,9 @@ def main():
     # equivalences an application declares ON prefixed units ((kilo a) = 8 b; (milli c) = 2 (kilo d); a named unit that is prefixed underneath,
     # byte = 1 octet): the value of every operation follows the declared sizes, whichever side carries which prefix
     pdefine = [["vfqa", [[1, 1]]], ["vfqb", [[1, 1]]], ["vfqc", [[3, 1]]], ["vfqd", [[3, 1]]]]
-    pdecls = [[[["kilo", "vfqa", 1]], ["int", "8", "1"], [[None, "vfqb", 1]]], [[["milli", "vfqc", 1]], ["int", "2", "1"], [["kilo", "vfqd", 1]]]]
+    # (each declared twice: a first, sloppy figure, then the one in force -- the later declaration replaces the earlier in both directions)
+    pdecls = [[[["kilo", "vfqa", 1]], ["int", "7", "1"], [[None, "vfqb", 1]]], [[["milli", "vfqc", 1]], ["float", "5", "2"], [["kilo", "vfqd", 1]]],
+              [[["kilo", "vfqa", 1]], ["int", "8", "1"], [[None, "vfqb", 1]]], [[["milli", "vfqc", 1]], ["int", "2", "1"], [["kilo", "vfqd", 1]]]]
     psize = {"vfqa": Fraction(8, 1000), "vfqb": Fraction(1), "vfqc": Fraction(2000 * 1000), "vfqd": Fraction(1)}
     pval = {None: Fraction(1), "kilo": Fraction(1000), "milli": Fraction(1, 1000), "kibi": Fraction(1024)}
     pc = []
@@ -147,7 +149,7 @@ def main():
         (pa, ua, _), = cs["a"]["u"]
         (pb, ub, _), = cs["b"]["u"] if cs["op"] != "in_unit" else cs["b"]
         va = Fraction(int(cs["a"]["m"][1]), int(cs["a"]["m"][2])) * pval[pa] * psize[ua]
-        repl = {"declared": ["(kilo vfqa).equals(8 vfqb)", "(milli vfqc).equals(2 kilo vfqd)"], "case": cs, "implementation": {k: res.get(k) for k in ("m", "bool", "err")}}
+        repl = {"declared": ["(kilo vfqa).equals(7 vfqb)", "(milli vfqc).equals(2.5 kilo vfqd)", "(kilo vfqa).equals(8 vfqb)", "(milli vfqc).equals(2 kilo vfqd)"], "case": cs, "implementation": {k: res.get(k) for k in ("m", "bool", "err")}}
         if "err" in res or "setup_err" in res:
             c.violation(f"raises:{cs['op']}:{res.get('err') or res.get('setup_err')}", f"{cs['op']} of convertible quantities raised {res.get('err') or res.get('setup_err')} (equivalence declared on a prefixed unit)", repl); continue
         if cs["op"] == "in_unit":
